@@ -76,6 +76,17 @@ class SymWorld(S.World):
     def index_map(self, name, new_sort, src_sort=None, n_src=1):
         return S.index_map(name, new_sort, n_src)
 
+    def partition(self, sort, parts, ascending=()):
+        """index lists that partition range(|sort|): parts = [(name, part sort), ...]; arbitrary injections with disjoint
+        ranges covering `sort` (any order).  Returns the IndexArr of every part."""
+        K.declare_partition(self.ctx, sort, parts)
+        out = []
+        for name, ps in parts:
+            self.map_sort[name] = sort
+            out.append(S.index_map(name, ps))
+        self.assumptions.add(f"index lists {[n for n, _ in parts]} are disjoint, without repetition, and cover range({sort})")
+        return out
+
     def index_map2(self, n1, n2, new1, new2, src1=None, src2=None):
         """index array into a row-major product axis (R1*R2): entry (i',j') = rho1(i')*R2 + rho2(j'); also returns
         the two component maps"""
@@ -382,6 +393,21 @@ class NumWorld:
         eye = np.eye(Dn)
         return dict(S=self.xp.asarray(s[..., None] * eye), L=self.xp.asarray((1.0 / s)[..., None] * eye),
                     ld=self.xp.asarray(np.sum(np.log(s), axis=-1)), s=self.xp.asarray(s))
+
+    def partition(self, sort, parts, ascending=()):
+        np = self.np
+        n = sum(self.sizes[ps] for _, ps in parts)
+        self.sizes[sort] = n
+        perm = self.rng.permutation(n)
+        out, pos = [], 0
+        for k, (name, ps) in enumerate(parts):
+            idx = perm[pos:pos + self.sizes[ps]]
+            pos += self.sizes[ps]
+            if name in ascending:
+                idx = np.sort(idx)
+            self.inputs[name] = idx
+            out.append(self.xp.asarray(idx))
+        return out
 
     def index_map2(self, n1, n2, new1, new2, src1=None, src2=None):
         np = self.np
